@@ -60,6 +60,7 @@ class C01(SeqProp):
         for b in (4096, 8192):
             for n in (b - 1, b, b + 1, 2 * b, 3 * b + 7):
                 u.toks.append(contents.add(bytes([(n * 7 + i) % 251 for i in range(16)]) * (n // 16) + b"z" * (n % 16)))
+        u.toks = u.zero_tail + u.toks       # first, so that the scripted life cycles use them too
         return u
 
     def owned(self, call, s, ctx):
